@@ -34,6 +34,8 @@ const (
 	idEvalNonFinite     = "json-eval-nonfinite-number"
 	idEvalOddKeys       = "json-eval-non-string-table-key"
 	idCrashNearbyBuffer = "crash-nearby-buffer"
+	idSearchNonFinite   = "json-search-area-nonfinite"
+	idEvalFunction      = "json-eval-function-value"
 )
 
 var (
@@ -118,6 +120,11 @@ func runProbes() {
 		{id: idEvalNonFinite, cmds: [][]string{{"EVALRO", "return {1/0}", "0"}}},
 		{id: idEvalOddKeys, cmds: [][]string{{"EVAL", "return {[1.5]='x'}", "0"}}},
 		{id: idEvalOddKeys, cmds: [][]string{{"EVALNA", "return {[true]='x'}", "0"}}},
+		{id: idSearchNonFinite, cmds: [][]string{{"SET", "k", "a", "POINT", "1", "2"}, {"NEARBY", "k", "DISTANCE", "POINT", "nan", "nan"}}},
+		{id: idSearchNonFinite, cmds: [][]string{{"SET", "k", "a", "POINT", "1", "2"}, {"NEARBY", "k", "DISTANCE", "IDS", "POINT", "inf", "2"}}},
+		{id: idSearchNonFinite, cmds: [][]string{{"SET", "k", "a", "POINT", "1", "2"}, {"NEARBY", "k", "DISTANCE", "POINT", "1", "2", "inf"}, {"WITHIN", "k", "CIRCLE", "nan", "2", "10"}, {"INTERSECTS", "k", "CIRCLE", "1", "2", "inf"}}},
+		{id: idEvalFunction, cmds: [][]string{{"EVAL", "return tile38.call", "0"}}},
+		{id: idEvalFunction, cmds: [][]string{{"EVALRO", "return {tile38.call, {f=string.rep}}", "0"}}},
 		{id: idClientListNaN, cmds: [][]string{{"CLIENT", "SETNAME", "nan"}, {"CLIENT", "LIST"}}},
 		{id: idClientListNaN, cmds: [][]string{{"CLIENT", "SETNAME", "-Infinity"}, {"CLIENT", "LIST"}}},
 	}
@@ -138,11 +145,50 @@ func runProbes() {
 			}
 		}
 	}
+	probes = append(probes, pairProbe(idEvalBigNum, []string{"EVAL", "return 1e300", "0"}), pairProbe(idEvalBigNum, []string{"EVAL", "return {-1e19, 2^63}", "0"}),
+		pairProbe(idEvalErrOK, []string{"EVAL", "return tile38.error_reply('bad')", "0"}), pairProbe(idEvalErrOK, []string{"EVAL", "return tile38.call", "0"}))
+	for _, p := range probes {
+		if p.reproduces {
+			switch p.id {
+			case idEvalBigNum:
+				excl.bigNum = true
+			case idEvalErrOK:
+				excl.errTop = true
+			}
+		}
+	}
 	probes = append(probes, crashProbe(idCrashNearbyBuffer, [][]string{{"SET", "k", "a", "POINT", "1", "2"}, {"NEARBY", "k", "BUFFER", "1", "POINT", "1", "2"}}))
 	exclNearbyBuffer = probes[len(probes)-1].reproduces
 	exclNonFinite = excl.nonFinite
 	probeResults = probes
 	mainTrio.dirty = true
+}
+
+// pairProbe sends one command in RESP mode (server A) and in JSON mode
+// (server B) on a clean state and reports a disagreement that belongs to
+// finding id.
+func pairProbe(id string, cmd []string) probeResult {
+	res := probeResult{id: id, cmds: [][]string{cmd}}
+	if err := mainTrio.reset(); err != nil {
+		panic(err)
+	}
+	v, err1 := mainTrio.a.Do(cmd...)
+	jv, err2 := mainTrio.b.Do(cmd...)
+	if err1 != nil || err2 != nil || jv.Kind != '$' {
+		res.reproduces, res.what = true, fmt.Sprintf("%s: %v %v %s", t38.CmdString(cmd), err1, err2, jv)
+		return res
+	}
+	rep, err := t38.DecodeJSONReply(jv.Str)
+	if err != nil {
+		res.reproduces, res.what = true, fmt.Sprintf("%s: %v", t38.CmdString(cmd), err)
+		return res
+	}
+	var tnt taint
+	if _, d := agree(cmd, v, rep, &tnt); d != "" {
+		res.reproduces = true
+		res.what = fmt.Sprintf("%s: RESP %s, JSON %s: %s", t38.CmdString(cmd), v, jv.Str, strings.TrimPrefix(d, "{{"+id+"}}"))
+	}
+	return res
 }
 
 // crashProbe sends cmds to a subprocess server (an in-process server would
@@ -283,7 +329,13 @@ func newG(rt *rapid.T, c *ev.Collector, ns gen.Names) *G {
 	if exclClientNaN {
 		c.Excluded(idClientListNaN)
 	}
-	return &G{t: rt, ns: ns, nonFinite: !ex.nonFinite, evalNonFinite: !ex.evalNonFinite, oddKeys: !ex.oddKeys,
+	if ex.errTop {
+		c.Excluded(idEvalErrOK)
+	}
+	if ex.bigNum {
+		c.Excluded(idEvalBigNum)
+	}
+	return &G{t: rt, ns: ns, nonFinite: !ex.nonFinite, evalNonFinite: !ex.evalNonFinite, oddKeys: !ex.oddKeys, errTop: !ex.errTop, bigNum: !ex.bigNum,
 		noLineAreas: ev.KnownActive(idHangLineString), onExcluded: c.Excluded}
 }
 
